@@ -167,6 +167,46 @@ pub fn child(args: &[String]) -> i32 {
         }
         c
     });
+    // automaton with a dead state (pruning), Levenshtein, regex DFA, set operations over range / search streams
+    let dead = Dfa { classes: ClassMap::IsA, ncls: 2, trans: vec![vec![0, 1], vec![2, 1], vec![2, 2]], accept: vec![true, true, false], can: vec![true, true, false], always: vec![false, false, false] };
+    measure!("search_dfa_with_dead_state", {
+        let mut s = f.search(&dead).into_stream();
+        let mut c = 0u64;
+        while let Some(_) = s.next() {
+            c += 1;
+        }
+        c
+    });
+    let lev = fst::automaton::Levenshtein::new("aabbaabb", 2).unwrap();
+    measure!("search_levenshtein", {
+        let mut s = f.search(&lev).ge(&mid_lo).into_stream();
+        let mut c = 0u64;
+        while let Some(_) = s.next() {
+            c += 1;
+        }
+        c
+    });
+    let re = regex_automata::dense::Builder::new().anchored(true).build("a[a-e]*b[a-e]*").unwrap();
+    measure!("search_regex_dense", {
+        let mut s = f.search(&re).into_stream();
+        let mut c = 0u64;
+        while let Some(_) = s.next() {
+            c += 1;
+        }
+        c
+    });
+    measure!("union_of_range_and_search_streams_k3", {
+        let mut ob = fst::raw::OpBuilder::new();
+        ob.push(fsts[0].range().ge(&mid_lo));
+        ob.push(fsts[1].search(Subsequence::new("ab")));
+        ob.push(fsts[2].range().lt(&mid_hi));
+        let mut s = ob.union();
+        let mut c = 0u64;
+        while let Some(_) = s.next() {
+            c += 1;
+        }
+        c
+    });
     for k in [2usize, 3, 8] {
         measure!(format!("union_k{}", k), {
             let mut s = fsts[..k].iter().collect::<fst::raw::OpBuilder>().union();
